@@ -11,7 +11,21 @@ use std::time::Instant;
 use vharness::driver::*;
 use vharness::props;
 
-const VERIF: &str = "/verif";
+/// Root of the verification tree: $VERIF_ROOT, else derived from the executable's
+/// location (<root>/harness/target/<profile>/vcheck), else /verif.
+fn verif_root() -> String {
+    if let Ok(r) = std::env::var("VERIF_ROOT") {
+        return r;
+    }
+    if let Ok(exe) = std::env::current_exe() {
+        if let Some(root) = exe.ancestors().nth(4) {
+            if root.join("harness").is_dir() {
+                return root.to_string_lossy().into_owned();
+            }
+        }
+    }
+    "/verif".to_string()
+}
 
 macro_rules! dispatch {
     ($id:expr, $f:ident $(, $arg:expr)*) => {
@@ -50,6 +64,7 @@ fn profile_name() -> &'static str {
 }
 
 fn worker_main<P: Property>(args: &[String]) -> i32 {
+    let verif = verif_root();
     let tier = Tier::parse(&args[1]).expect("tier");
     let seed: u64 = args[2].parse().expect("seed");
     let worker: usize = args[3].parse().unwrap();
@@ -62,9 +77,9 @@ fn worker_main<P: Property>(args: &[String]) -> i32 {
         worker,
         workers,
         profile,
-        known: load_known(&format!("{VERIF}/known_findings.json")),
-        regress_dir: format!("{VERIF}/regress/{}", P::ID),
-        replay_dir: format!("{VERIF}/replays/{}", P::ID),
+        known: load_known(&format!("{verif}/known_findings.json")),
+        regress_dir: format!("{verif}/regress/{}", P::ID),
+        replay_dir: format!("{verif}/replays/{}", P::ID),
     };
     let rep = run_worker::<P>(&wa);
     std::fs::write(out, serde_json::to_vec(&rep).unwrap()).expect("write worker report");
@@ -111,6 +126,7 @@ fn sample_main<P: Property>(n: usize) -> i32 {
 }
 
 fn run_main(id: &str, tier: Tier) -> i32 {
+    let verif = verif_root();
     let t0 = Instant::now();
     let seed: u64 = std::env::var("VERIF_SEED")
         .ok()
@@ -130,12 +146,12 @@ fn run_main(id: &str, tier: Tier) -> i32 {
         Tier::Thorough => vec!["checked", "release"],
     };
     let per = (total_workers / profiles.len()).max(1);
-    let work = format!("{VERIF}/work/{id}");
+    let work = format!("{verif}/work/{id}");
     let _ = std::fs::remove_dir_all(&work);
     std::fs::create_dir_all(&work).unwrap();
     let mut children = vec![];
     for p in &profiles {
-        let bin = format!("{VERIF}/harness/target/{p}/vcheck");
+        let bin = format!("{verif}/harness/target/{p}/vcheck");
         for w in 0..per {
             let out = format!("{work}/{p}-{w}.json");
             let child = Command::new(&bin)
@@ -217,7 +233,7 @@ fn run_main(id: &str, tier: Tier) -> i32 {
         exhaustive_complete &= r.exhaustive_complete;
     }
     // known findings that still reproduce
-    let known = load_known(&format!("{VERIF}/known_findings.json"));
+    let known = load_known(&format!("{verif}/known_findings.json"));
     for k in known.iter().filter(|k| k.property == id && k.status == "open") {
         if known_hits.get(&k.id).copied().unwrap_or(0) > 0 {
             println!("KNOWN-FINDING: property={} {} [{}]", id, k.what, k.id);
@@ -270,9 +286,9 @@ fn run_main(id: &str, tier: Tier) -> i32 {
         "violations": printed,
     });
     let evdir = if std::env::var("VERIF_NO_EVIDENCE").is_ok() {
-        format!("{VERIF}/work/evidence-scratch")
+        format!("{verif}/work/evidence-scratch")
     } else {
-        format!("{VERIF}/evidence")
+        format!("{verif}/evidence")
     };
     std::fs::create_dir_all(&evdir).unwrap();
     std::fs::write(
